@@ -2,6 +2,7 @@
 From NV Require Import Base Generated C14_Model.
 Open Scope string_scope.
 Open Scope list_scope.
+Open Scope nat_scope.
 
 (* ---------- association lists ---------- *)
 Section MapLemmas.
@@ -55,6 +56,10 @@ Section MapLemmas.
       rewrite (get_del_neq _ _ _ Hn) in H. auto.
   Qed.
 End MapLemmas.
+
+Arguments put : simpl never.
+Arguments get : simpl never.
+Arguments del : simpl never.
 
 Definition Neqb_spec : forall a b, N.eqb a b = true <-> a = b := N.eqb_eq.
 Definition Seqb_spec : forall a b, String.eqb a b = true <-> a = b := String.eqb_eq.
@@ -147,3 +152,332 @@ Proof. intros d c H L. unfold pre in H. rewrite H. apply firstn_all2. exact L. Q
 
 Lemma pre_refl : forall c, pre c c.
 Proof. intros c. unfold pre. symmetry. apply firstn_all. Qed.
+
+(* ---------- the invariant of safe traces ---------- *)
+Ltac dmatch H :=
+  match type of H with
+  | context [match ?x with _ => _ end] => destruct x eqn:?
+  end; try discriminate.
+
+Section Inv.
+Variable sha : string -> list N.
+Notation key := (key sha).
+Notation step := (step sha).
+Notation exec := (exec sha).
+
+Definition live (p : wpc) : Prop := p = POpen \/ p = PClosed.
+Definition full (p : wpc) : Prop := p = PClosed \/ p = PDone.
+
+(* writer w: its file descriptor is its own inode, which holds a prefix of its
+   content (all of it once closed); while it may still rename, its temporary
+   name is a temporary name and denotes that inode *)
+Definition wok (s : state) (w : N) (wr : wrec) : Prop :=
+  w_inplace wr = false /\ w_ino wr = w /\
+  exists d, getN w (s_ino s) = Some d /\ pre d (w_content wr) /\
+            (full (w_pc wr) -> d = w_content wr) /\
+            (live (w_pc wr) -> is_temp (w_tmp wr) = true /\ getS (w_tmp wr) (s_dir s) = Some w).
+
+(* inode i was renamed over a key by writer i, which is finished *)
+Definition done_at (s : state) (i : N) (wr : wrec) : Prop :=
+  getN i (s_w s) = Some wr /\ w_pc wr = PDone.
+
+Definition dok (s : state) : Prop :=
+  forall name i, getS name (s_dir s) = Some i ->
+    is_temp name = true \/ exists wr, done_at s i wr /\ key (w_url wr) = name.
+
+Definition rok (s : state) (rr : rrec) : Prop :=
+  match r_ino rr with
+  | None => r_st rr = RDone Miss
+  | Some i => exists wr, done_at s i wr /\ key (w_url wr) = key (r_url rr) /\
+                match r_st rr with
+                | RReading buf => pre buf (w_content wr)
+                | RDone (Hit c) => c = w_content wr
+                | RDone Miss => False
+                end
+  end.
+
+Record inv (s : state) : Prop := mk_inv {
+  inv_w : forall w wr, getN w (s_w s) = Some wr -> wok s w wr;
+  inv_d : dok s;
+  inv_r : forall r rr, getN r (s_r s) = Some rr -> rok s rr }.
+
+Lemma inv_init : inv init.
+Proof. split; cbn; intros; discriminate. Qed.
+
+(* a finished writer's record never changes *)
+Lemma step_done : forall s e s' i wr,
+  step s e = Some s' -> done_at s i wr -> done_at s' i wr.
+Proof.
+  intros s e s' i wr H [G P]. split; [|exact P].
+  destruct e; cbn in H; repeat dmatch H; inversion H; subst; clear H; cbn; try exact G;
+    try (destruct (N.eq_dec i w) as [->|Hn]; [congruence | mapN; exact G]).
+Qed.
+
+Lemma rok_step : forall s e s' rr, step s e = Some s' -> rok s rr -> rok s' rr.
+Proof.
+  intros s e s' rr H R. unfold rok in *. destruct (r_ino rr) as [i|]; [|exact R].
+  destruct R as [wr [D R]]. exists wr. split; [|exact R]. exact (step_done _ _ _ _ _ H D).
+Qed.
+
+Lemma entry_step : forall s e s' name i, step s e = Some s' ->
+  (is_temp name = true \/ exists wr, done_at s i wr /\ key (w_url wr) = name) ->
+  (is_temp name = true \/ exists wr, done_at s' i wr /\ key (w_url wr) = name).
+Proof.
+  intros s e s' name i H [T|[wr [D K]]]; [left; exact T|right].
+  exists wr. split; [exact (step_done _ _ _ _ _ H D)|exact K].
+Qed.
+
+Lemma wok_frame : forall s s' w wr,
+  wok s w wr ->
+  getN w (s_ino s') = getN w (s_ino s) ->
+  (live (w_pc wr) -> getS (w_tmp wr) (s_dir s') = getS (w_tmp wr) (s_dir s)) ->
+  wok s' w wr.
+Proof.
+  intros s s' w wr [I [J [d [G [P [F L]]]]]] Hi Hd.
+  split; [exact I|]. split; [exact J|]. exists d. rewrite Hi. split; [exact G|]. split; [exact P|].
+  split; [exact F|]. intros Lv. destruct (L Lv) as [T GT]. split; [exact T|]. rewrite (Hd Lv). exact GT.
+Qed.
+
+(* two writers that may still rename have different temporary names *)
+Lemma live_tmp_neq : forall s w wr w' wr',
+  wok s w wr -> wok s w' wr' -> live (w_pc wr) -> live (w_pc wr') -> w <> w' -> w_tmp wr' <> w_tmp wr.
+Proof.
+  intros s w wr w' wr' [_ [_ [d [_ [_ [_ L]]]]]] [_ [_ [d' [_ [_ [_ L']]]]]] Lv Lv' N E.
+  destruct (L Lv) as [_ G]. destruct (L' Lv') as [_ G']. rewrite E in G'. congruence.
+Qed.
+
+Lemma not_full_open : ~ full POpen.
+Proof. intros [H|H]; discriminate. Qed.
+Lemma not_live_done : ~ live PDone.
+Proof. intros [H|H]; discriminate. Qed.
+Lemma not_live_failed : ~ live PFailed.
+Proof. intros [H|H]; discriminate. Qed.
+Lemma not_live_dead : ~ live PDead.
+Proof. intros [H|H]; discriminate. Qed.
+Lemma not_full_failed : ~ full PFailed.
+Proof. intros [H|H]; discriminate. Qed.
+Lemma not_full_dead : ~ full PDead.
+Proof. intros [H|H]; discriminate. Qed.
+
+Lemma inv_create : forall s s' w u c t, inv s -> step s (ECreate w u c t) = Some s' -> inv s'.
+Proof.
+  intros s s' w u c t [IW ID IR] H. cbn in H. repeat dmatch H. inversion H; subst; clear H.
+  split; cbn.
+  - intros w' wr' G. apply (get_put_cases N.eqb Neqb_spec) in G. destruct G as [[-> ->]|[Hn G]].
+    + split; [reflexivity|]. split; [reflexivity|]. exists []. cbn. mapN.
+      split; [reflexivity|]. split; [apply pre_nil|]. split; [intros F; destruct (not_full_open F)|].
+      intros _. split; [assumption|]. mapS. reflexivity.
+    + pose proof (IW _ _ G) as W. apply (wok_frame s); [exact W|cbn; mapN; reflexivity|].
+      intros Lv. cbn. destruct W as [_ [_ [d [_ [_ [_ L]]]]]]. destruct (L Lv) as [_ GT].
+      mapS. reflexivity.
+  - intros name i G. apply (get_put_cases String.eqb Seqb_spec) in G. destruct G as [[-> ->]|[Hn G]].
+    + left. assumption.
+    + destruct (ID _ _ G) as [T|[wr [[D P] K]]]; [left; exact T|right].
+      exists wr. split; [|exact K]. split; [|exact P]. cbn. mapN. exact D.
+  - intros r rr G. pose proof (IR _ _ G) as R. unfold rok in *. destruct (r_ino rr) as [i|]; [|exact R].
+    destruct R as [wr [[D P] R]]. exists wr. split; [|exact R]. split; [|exact P]. cbn. mapN. exact D.
+Qed.
+
+Lemma inv_write : forall s s' w n, inv s -> step s (EWrite w n) = Some s' -> inv s'.
+Proof.
+  intros s s' w n [IW ID IR] H. pose proof H as H0. cbn in H.
+  destruct (getN w (s_w s)) as [wr|] eqn:Heqo; [|discriminate].
+  destruct (w_pc wr) eqn:Heqw0; try discriminate.
+  destruct (getN (w_ino wr) (s_ino s)) as [d|] eqn:Gi; [|discriminate].
+  inversion H; subst s'; clear H.
+  pose proof (IW _ _ Heqo) as Ww. destruct Ww as [I [J [d0 [G [P [F L]]]]]].
+  rewrite J in *. assert (d0 = d) by congruence. subst d0.
+  split; cbn.
+  - intros w' wr' G'. destruct (N.eq_dec w' w) as [->|Hn].
+    + assert (wr' = wr) by congruence. subst wr'.
+      split; [exact I|]. split; [exact J|]. exists (d ++ firstn n (skipn (List.length d) (w_content wr))).
+      cbn. mapN. split; [reflexivity|]. split; [apply pre_app; exact P|].
+      split; [intros Fu; rewrite Heqw0 in Fu; destruct (not_full_open Fu)|exact L].
+    + apply (wok_frame s); [exact (IW _ _ G')|cbn; mapN; reflexivity|reflexivity].
+  - intros name i Gd. exact (entry_step _ _ _ _ _ H0 (ID _ _ Gd)).
+  - intros r rr Gr. exact (rok_step _ _ _ _ H0 (IR _ _ Gr)).
+Qed.
+
+Lemma inv_close : forall s s' w, inv s -> step s (EClose w) = Some s' -> inv s'.
+Proof.
+  intros s s' w [IW ID IR] H. pose proof H as H0. cbn in H.
+  destruct (getN w (s_w s)) as [wr|] eqn:Heqo; [|discriminate].
+  destruct (w_pc wr) eqn:Heqw0; try discriminate.
+  destruct (getN (w_ino wr) (s_ino s)) as [d|] eqn:Gi; [|discriminate].
+  destruct (List.length (w_content wr) <=? List.length d) eqn:Heqb; [|discriminate].
+  pose proof (IW _ _ Heqo) as Ww. destruct Ww as [I [J [d0 [G [P [F L]]]]]].
+  rewrite J in *. assert (d0 = d) by congruence. subst d0. rewrite I in *.
+  inversion H; subst s'; clear H.
+  apply Nat.leb_le in Heqb.
+  split; cbn.
+  - intros w' wr' G'. apply (get_put_cases N.eqb Neqb_spec) in G'. destruct G' as [[-> ->]|[Hn G']].
+    + split; [exact I|]. split; [exact J|]. exists d. cbn. split; [exact G|]. split; [exact P|].
+      split; [intros _; apply pre_full; assumption|].
+      intros _. apply L. left. exact Heqw0.
+    + apply (wok_frame s); [exact (IW _ _ G')|reflexivity|reflexivity].
+  - intros name i Gd. exact (entry_step _ _ _ _ _ H0 (ID _ _ Gd)).
+  - intros r rr Gr. exact (rok_step _ _ _ _ H0 (IR _ _ Gr)).
+Qed.
+
+Lemma inv_rename : forall s s' w, inv s -> step s (ERename w) = Some s' -> inv s'.
+Proof.
+  intros s s' w [IW ID IR] H. pose proof H as H0. cbn in H.
+  destruct (getN w (s_w s)) as [wr|] eqn:Heqo; [|discriminate].
+  destruct (w_pc wr) eqn:Heqw0; try discriminate.
+  destruct (w_inplace wr) eqn:Inp; try discriminate.
+  destruct (getS (w_tmp wr) (s_dir s)) as [n|] eqn:Gt; [|discriminate].
+  inversion H; subst s'; clear H.
+  pose proof (IW _ _ Heqo) as Ww. pose proof Ww as Ww0.
+  destruct Ww as [I [J [d [G [P [F L]]]]]].
+  assert (live (w_pc wr)) as Lv by (right; exact Heqw0).
+  destruct (L Lv) as [T GT]. assert (n = w) by congruence. subst n.
+  split; cbn.
+  - intros w' wr' G'. apply (get_put_cases N.eqb Neqb_spec) in G'. destruct G' as [[-> ->]|[Hn G']].
+    + split; [exact I|]. split; [exact J|]. exists d. cbn. split; [exact G|]. split; [exact P|].
+      split; [intros _; apply F; left; exact Heqw0|]. intros Lv'. destruct (not_live_done Lv').
+    + pose proof (IW _ _ G') as W'. apply (wok_frame s); [exact W'|reflexivity|].
+      intros Lv'. cbn.
+      assert (w_tmp wr' <> w_tmp wr) as N1 by (apply (live_tmp_neq s w wr w' wr'); auto).
+      assert (w_tmp wr' <> key (w_url wr)) as N2.
+      { intros E. destruct W' as [_ [_ [d' [_ [_ [_ L']]]]]]. destruct (L' Lv') as [T' _].
+        rewrite E, key_not_temp in T'. discriminate. }
+      mapS. mapS. reflexivity.
+  - intros name i Gd. apply (get_put_cases String.eqb Seqb_spec) in Gd. destruct Gd as [[-> ->]|[Hn Gd]].
+    + right. exists (with_pc wr PDone). split; [|reflexivity]. split; [|reflexivity]. cbn. mapN. reflexivity.
+    + apply (get_del_some String.eqb Seqb_spec) in Gd. destruct Gd as [_ Gd].
+      exact (entry_step _ _ _ _ _ H0 (ID _ _ Gd)).
+  - intros r rr Gr. exact (rok_step _ _ _ _ H0 (IR _ _ Gr)).
+Qed.
+
+Lemma inv_fail : forall s s' w, inv s -> step s (EFail w) = Some s' -> inv s'.
+Proof.
+  intros s s' w [IW ID IR] H. pose proof H as H0. cbn in H.
+  destruct (getN w (s_w s)) as [wr|] eqn:Heqo; [|discriminate].
+  assert (live (w_pc wr) /\ s' = mk_state (delS (w_tmp wr) (s_dir s)) (s_ino s) (putN w (with_pc wr PFailed) (s_w s)) (s_r s)) as [Lv ->].
+  { destruct (w_pc wr) eqn:E; try discriminate; destruct (w_inplace wr); try discriminate;
+      inversion H; (split; [|reflexivity]); [left|right]; reflexivity. }
+  clear H. pose proof (IW _ _ Heqo) as Ww. pose proof Ww as Ww0.
+  destruct Ww as [I [J [d [G [P [F L]]]]]].
+  split; cbn.
+  - intros w' wr' G'. apply (get_put_cases N.eqb Neqb_spec) in G'. destruct G' as [[-> ->]|[Hn G']].
+    + split; [exact I|]. split; [exact J|]. exists d. cbn. split; [exact G|]. split; [exact P|].
+      split; [intros Fu; destruct (not_full_failed Fu)|intros Lv'; destruct (not_live_failed Lv')].
+    + pose proof (IW _ _ G') as W'. apply (wok_frame s); [exact W'|reflexivity|].
+      intros Lv'. cbn.
+      assert (w_tmp wr' <> w_tmp wr) as N1 by (apply (live_tmp_neq s w wr w' wr'); auto).
+      mapS. reflexivity.
+  - intros name i Gd. apply (get_del_some String.eqb Seqb_spec) in Gd. destruct Gd as [_ Gd].
+    exact (entry_step _ _ _ _ _ H0 (ID _ _ Gd)).
+  - intros r rr Gr. exact (rok_step _ _ _ _ H0 (IR _ _ Gr)).
+Qed.
+
+Lemma inv_crash : forall s s' w, inv s -> step s (ECrash w) = Some s' -> inv s'.
+Proof.
+  intros s s' w [IW ID IR] H. pose proof H as H0. cbn in H.
+  destruct (getN w (s_w s)) as [wr|] eqn:Heqo; [|discriminate].
+  assert (s' = set_w s w (with_pc wr PDead)) as ->.
+  { destruct (w_pc wr); try discriminate; inversion H; reflexivity. }
+  clear H. pose proof (IW _ _ Heqo) as Ww. destruct Ww as [I [J [d [G [P [F L]]]]]].
+  split; cbn.
+  - intros w' wr' G'. apply (get_put_cases N.eqb Neqb_spec) in G'. destruct G' as [[-> ->]|[Hn G']].
+    + split; [exact I|]. split; [exact J|]. exists d. cbn. split; [exact G|]. split; [exact P|].
+      split; [intros Fu; destruct (not_full_dead Fu)|intros Lv'; destruct (not_live_dead Lv')].
+    + apply (wok_frame s); [exact (IW _ _ G')|reflexivity|reflexivity].
+  - intros name i Gd. exact (entry_step _ _ _ _ _ H0 (ID _ _ Gd)).
+  - intros r rr Gr. exact (rok_step _ _ _ _ H0 (IR _ _ Gr)).
+Qed.
+
+(* the inode of a finished writer holds exactly its content *)
+Lemma done_data : forall s i wr, inv s -> done_at s i wr -> getN i (s_ino s) = Some (w_content wr).
+Proof.
+  intros s i wr [IW _ _] [G P]. destruct (IW _ _ G) as [_ [_ [d [Gd [_ [F _]]]]]].
+  rewrite Gd. f_equal. apply F. right. exact P.
+Qed.
+
+Lemma inv_open : forall s s' r u, inv s -> step s (EOpen r u) = Some s' -> inv s'.
+Proof.
+  intros s s' r u [IW ID IR] H. pose proof H as H0. cbn in H.
+  destruct (getN r (s_r s)) eqn:Gr; [discriminate|]. inversion H; subst s'; clear H.
+  split; cbn.
+  - intros w' wr' G'. apply (wok_frame s); [exact (IW _ _ G')|reflexivity|reflexivity].
+  - intros name i Gd. exact (entry_step _ _ _ _ _ H0 (ID _ _ Gd)).
+  - intros r' rr' G'. apply (get_put_cases N.eqb Neqb_spec) in G'. destruct G' as [[-> ->]|[Hn G']].
+    + destruct (getS (key u) (s_dir s)) as [i|] eqn:Gk; unfold rok; cbn; [|reflexivity].
+      destruct (ID _ _ Gk) as [T|[wr [D K]]].
+      * rewrite key_not_temp in T. discriminate.
+      * exists wr. split; [exact D|]. split; [exact K|apply pre_nil].
+    + exact (rok_step _ _ _ _ H0 (IR _ _ G')).
+Qed.
+
+Lemma inv_read : forall s s' r n, inv s -> step s (ERead r n) = Some s' -> inv s'.
+Proof.
+  intros s s' r n I H. pose proof H as H0. pose proof I as [IW ID IR]. cbn in H.
+  destruct (getN r (s_r s)) as [[u [i|] [buf|res]]|] eqn:Gr; try discriminate.
+  destruct (getN i (s_ino s)) as [d|] eqn:Gi; [|discriminate].
+  inversion H; subst s'; clear H.
+  split; cbn.
+  - intros w' wr' G'. apply (wok_frame s); [exact (IW _ _ G')|reflexivity|reflexivity].
+  - intros name i' Gd. exact (entry_step _ _ _ _ _ H0 (ID _ _ Gd)).
+  - intros r' rr' G'. apply (get_put_cases N.eqb Neqb_spec) in G'. destruct G' as [[-> ->]|[Hn G']].
+    + pose proof (IR _ _ Gr) as R. unfold rok in *. cbn in *. destruct R as [wr [D [K P]]].
+      exists wr. split; [exact D|]. split; [exact K|].
+      pose proof (done_data _ _ _ I D) as E. assert (d = w_content wr) by congruence. subst d.
+      apply pre_app. exact P.
+    + exact (rok_step _ _ _ _ H0 (IR _ _ G')).
+Qed.
+
+Lemma inv_eof : forall s s' r, inv s -> step s (EEof r) = Some s' -> inv s'.
+Proof.
+  intros s s' r I H. pose proof H as H0. pose proof I as [IW ID IR]. cbn in H.
+  destruct (getN r (s_r s)) as [[u [i|] [buf|res]]|] eqn:Gr; try discriminate.
+  destruct (getN i (s_ino s)) as [d|] eqn:Gi; [|discriminate].
+  destruct (List.length d <=? List.length buf) eqn:Le; [|discriminate].
+  inversion H; subst s'; clear H. apply Nat.leb_le in Le.
+  split; cbn.
+  - intros w' wr' G'. apply (wok_frame s); [exact (IW _ _ G')|reflexivity|reflexivity].
+  - intros name i' Gd. exact (entry_step _ _ _ _ _ H0 (ID _ _ Gd)).
+  - intros r' rr' G'. apply (get_put_cases N.eqb Neqb_spec) in G'. destruct G' as [[-> ->]|[Hn G']].
+    + pose proof (IR _ _ Gr) as R. unfold rok in *. cbn in *. destruct R as [wr [D [K P]]].
+      exists wr. split; [exact D|]. split; [exact K|].
+      pose proof (done_data _ _ _ I D) as E. assert (d = w_content wr) by congruence. subst d.
+      apply pre_full; assumption.
+    + exact (rok_step _ _ _ _ H0 (IR _ _ G')).
+Qed.
+
+Lemma step_inv : forall s e s', inv s -> safe e = true -> step s e = Some s' -> inv s'.
+Proof.
+  intros s e s' I S H. destruct e; try discriminate.
+  - exact (inv_create _ _ _ _ _ _ I H).
+  - exact (inv_write _ _ _ _ I H).
+  - exact (inv_close _ _ _ I H).
+  - exact (inv_rename _ _ _ I H).
+  - exact (inv_fail _ _ _ I H).
+  - exact (inv_crash _ _ _ I H).
+  - exact (inv_open _ _ _ _ I H).
+  - exact (inv_read _ _ _ _ I H).
+  - exact (inv_eof _ _ _ I H).
+Qed.
+
+Lemma exec_inv : forall tr s s', inv s -> forallb safe tr = true -> exec s tr = Some s' -> inv s'.
+Proof.
+  induction tr as [|e tr IH]; intros s s' I S H; cbn in *.
+  - inversion H. subst. exact I.
+  - apply andb_true_iff in S. destruct S as [Se St].
+    destruct (step s e) as [s1|] eqn:E; [|discriminate].
+    exact (IH _ _ (step_inv _ _ _ I Se E) St H).
+Qed.
+
+Lemma exec_app : forall tr1 tr2 s, exec s (tr1 ++ tr2) =
+  match exec s tr1 with Some s1 => exec s1 tr2 | None => None end.
+Proof.
+  induction tr1 as [|e tr1 IH]; intros tr2 s; cbn; [reflexivity|].
+  destruct (step s e); [apply IH|reflexivity].
+Qed.
+
+Lemma exec_done : forall tr s s' i wr, exec s tr = Some s' -> done_at s i wr -> done_at s' i wr.
+Proof.
+  induction tr as [|e tr IH]; intros s s' i wr H D; cbn in H.
+  - inversion H. subst. exact D.
+  - destruct (step s e) as [s1|] eqn:E; [|discriminate].
+    exact (IH _ _ _ _ H (step_done _ _ _ _ _ E D)).
+Qed.
